@@ -119,11 +119,11 @@ def run_code(case):
         if case.get("config_via") == "cli":
             rc_ = proj.gwf(["config", "set", "backend.slurm.accounting_enabled", case.get("word", "no")])
             if rc_.code != 0:
-                raise hist.HarnessError("config set failed: " + rc_.brief())
+                raise hist.SubjectFailure("config set failed: " + rc_.brief())
         proj.set_files({"src": 1})
         r = proj.gwf(["run"])
         if r.code != 0:
-            raise hist.HarnessError("setup run failed: " + r.brief())
+            raise hist.SubjectFailure("setup run failed: " + r.brief())
         sim = proj.sim
         j = sim.latest("T")
         u = sim.latest("U")
@@ -198,7 +198,7 @@ def run_cross(case):
         sim = proj.sim
         r = proj.gwf(["-b", a, "run", "T"])
         if r.code != 0 or r.crashed:
-            raise hist.HarnessError("setup run failed: " + r.brief())
+            raise hist.SubjectFailure("setup run failed: " + r.brief())
         ja = sim.latest("T")
         hist.set_job_state(sim, ja, "submitted")
         if case["shadow"]:
@@ -242,18 +242,21 @@ def run_restart(case):
 
     desc = {"targets": [{"name": "T", "inputs": [], "outputs": ["t.out"], "spec": "sleep 30\n", "wd": None},
                         {"name": "Other", "inputs": [], "outputs": ["o.out"], "spec": "sleep 30\n", "wd": None},
-                        {"name": "Quick", "inputs": [], "outputs": ["q.out"], "spec": "touch q.out\n", "wd": None}],
+                        {"name": "Quick", "inputs": [], "outputs": ["q.out"], "spec": "touch q.out\n", "wd": None}]
+            + [{"name": f"P{i}", "inputs": [], "outputs": [f"p{i}.out"], "spec": "true\n", "wd": None} for i in range(6)]
+            + [{"name": f"Q{i}", "inputs": [], "outputs": [f"q{i}.out"], "spec": "sleep 30\n", "wd": None} for i in range(10)],
             "files": {}}
     viols = []
     with project.Project(desc, backend="local") as proj:
         pool = realpool.Pool(proj.dir, 2)
         try:
             proj.write_config({"backend": "local", "backend.local.port": pool.port, "backend.local.host": "127.0.0.1"})
-            first = ["Other", "T"] if case["other_first"] else ["T"]
+            # a handful of tasks before T, so that T's id is some way into the old pool's id range
+            first = [f"P{i}" for i in range(6)] + (["Other", "T"] if case["other_first"] else ["T"])
             for n in first:
                 r = proj.gwf(["run", n])
                 if r.code != 0 or r.crashed:
-                    raise hist.HarnessError("setup run failed: " + r.brief())
+                    raise hist.SubjectFailure("setup run failed: " + r.brief())
             t0 = proj.gwf(["status", "T"]).status_rows().get("T")
             if t0 not in ("running", "submitted"):
                 viols.append(Violation({"kind": "local-state-before-restart"}, f"T shows {t0!r} right after submission"))
@@ -269,7 +272,7 @@ def run_restart(case):
                 viols.append(Violation({"kind": "state-after-pool-restart", "when": "empty-pool"},
                                        f"after a pool restart T shows {s1!r}, expected the file-based 'shouldrun': {r1.brief()}"))
             # other work on the new pool must not be mistaken for T's job
-            r2 = proj.gwf(["run", "Other" if not case["other_first"] else "Quick"])
+            r2 = proj.gwf(["run", "Other" if not case["other_first"] else "Quick", *[f"Q{i}" for i in range(10)]])
             time.sleep(0.3)
             r3 = proj.gwf(["status", "T"])
             s3 = r3.status_rows().get("T")
